@@ -21,6 +21,7 @@ import (
 	"strconv"
 	"strings"
 	"sync"
+	"syscall"
 	"time"
 
 	"github.com/kevin-hanselman/dud/src/agglog"
@@ -59,10 +60,23 @@ type scripted struct {
 	chunks []int
 	fail   bool
 	i      int
+	temp   string // "eagain" / "eintr" / "patheagain": ONE temporary error after the scripted chunks, then the rest of the data
+	fired  bool
 }
 
 func (s *scripted) Read(p []byte) (int, error) {
 	if s.i >= len(s.chunks) {
+		if s.temp != "" && !s.fired {
+			s.fired = true
+			switch s.temp {
+			case "eintr":
+				return 0, syscall.EINTR
+			case "patheagain":
+				return 0, &os.PathError{Op: "read", Path: "/dev/stdin", Err: syscall.EAGAIN}
+			default:
+				return 0, syscall.EAGAIN
+			}
+		}
 		if s.fail {
 			return 0, errors.New("scripted failure")
 		}
@@ -111,7 +125,11 @@ func parseSum(line string) (int, *scripted) {
 			chunks = append(chunks, n)
 		}
 	}
-	return buf, &scripted{data: data, chunks: chunks, fail: len(f) > 3 && f[3] == "err"}
+	sc := &scripted{data: data, chunks: chunks, fail: len(f) > 3 && f[3] == "err"}
+	if len(f) > 3 && (f[3] == "eagain" || f[3] == "eintr" || f[3] == "patheagain") {
+		sc.temp = f[3]
+	}
+	return buf, sc
 }
 
 func doSum(buf int, r io.Reader) string {
